@@ -7,6 +7,7 @@ use std::panic::{catch_unwind, AssertUnwindSafe};
 
 mod util;
 mod angles;
+mod circles;
 mod metro;
 mod curve;
 mod topo;
@@ -32,6 +33,7 @@ fn dispatch(rec: &Value, st: &mut State) -> Value {
     let m = rec["m"].as_str().unwrap_or("");
     match m {
         "angles" => angles::exec(rec, st),
+        "circles" => circles::exec(rec, st),
         "metro" => metro::exec(rec, st),
         "curve" => curve::exec(rec, st),
         "topo" => topo::exec(rec, st),
